@@ -9,3 +9,8 @@ import XProofs.Properties.C17
 #print axioms Properties.C17.C17_frozen_load_rejected_iff
 #print axioms Properties.C17.C17_frozen_call_explicit
 #print axioms Properties.C17.C17_frozen_copy_expr_from
+#print axioms Properties.C17.C17_flag_is_boolean
+#print axioms Properties.C17.C17_history_as_if_never_frozen
+#print axioms Properties.C17.C17_history_call_by_call
+#print axioms Properties.C17.C17_after_last_unfreeze
+#print axioms Properties.C17.C17_one_bracket_is_an_instance
